@@ -99,6 +99,7 @@ pub struct World {
     db: PathBuf,
     cache_dir: PathBuf,
     pub disk: Disk,
+    pub trio_dir: String,
     /// trio numbers appended so far (generator bookkeeping only)
     pub appended: BTreeSet<u64>,
     mem: Arc<MemoryImmutableFileDigestCacheProvider>,
@@ -148,6 +149,7 @@ impl World {
             db,
             cache_dir,
             disk: Disk::default(),
+            trio_dir: cfg.trio_dir.clone(),
             appended: BTreeSet::new(),
             mem_seen: BTreeMap::new(),
             pending_damage: None,
@@ -297,7 +299,7 @@ impl World {
         let imm = root.join("db").join("immutable");
         std::fs::create_dir_all(&imm).expect("canonical dir");
         for c in covered {
-            let bytes = &self.disk.files[&format!("immutable/{}", c.name)];
+            let bytes = &self.disk.files[&self.disk.immutable_path(&c.name)];
             std::fs::write(imm.join(&c.name), bytes).expect("canonical file");
         }
         let d = Arc::new(CardanoImmutableDigester::new(None, logger()));
@@ -338,7 +340,7 @@ impl World {
                     let was = self
                         .disk
                         .history
-                        .get(&format!("immutable/{}", c.name))
+                        .get(&self.disk.immutable_path(&c.name))
                         .is_some_and(|h| h.contains(d));
                     if was { stale = true } else { poisoned = true }
                 }
@@ -492,17 +494,22 @@ impl World {
                     if n > beacon {
                         beyond = true
                     }
-                    if !crate::model::is_canonical_trio_file(p) {
+                    if !crate::model::is_canonical_trio_file(&self.trio_dir, p) {
                         odd_names = true
                     }
                 }
                 None => {
-                    if p.starts_with("immutable/") { extras_in_imm = true } else { elsewhere = true }
+                    if self.disk.immutable_dir().is_some_and(|d| p.starts_with(&format!("{d}/"))) { extras_in_imm = true } else { elsewhere = true }
                 }
             }
         }
+        let multi = match (self.disk.immutable_dir_candidates(), self.disk.immutable_dir_tie()) {
+            (0 | 1, _) => "-",
+            (_, true) => "T",
+            (_, false) => "M",
+        };
         format!(
-            "{}{}{}{}",
+            "{multi}{}{}{}{}",
             if extras_in_imm { "X" } else { "-" },
             if beyond { "B" } else { "-" },
             if elsewhere { "E" } else { "-" },
@@ -518,7 +525,7 @@ impl World {
         self.out.hit("sim_steps");
         let label = match step {
             Step::AppendTrio { number, sizes, seed, order } => {
-                let paths = trio_paths(*number);
+                let paths = trio_paths(&self.trio_dir, *number);
                 let mut r = Rng::new(*seed);
                 let seeds = [r.next_u64(), r.next_u64(), r.next_u64()];
                 for k in order {
@@ -552,16 +559,16 @@ impl World {
                     "extra:dir".to_string()
                 } else {
                     self.write(path, content(*seed, *size));
-                    let class = match self.disk.immutable_number_of(path) {
-                        Some(_) => "numbered",
-                        None if path.starts_with("immutable/") && !path["immutable/".len()..].contains('/') => {
-                            match crate::reference::classify_name(&path["immutable/".len()..]) {
-                                crate::reference::NameClass::Unparseable => "unparseable",
-                                _ => "other-in-immutable",
-                            }
-                        }
-                        None if path.contains("/immutable/") => "nested-immutable",
-                        None => "elsewhere",
+                    let imm_prefix = self.disk.immutable_dir().map(|d| format!("{d}/"));
+                    let in_imm = imm_prefix.as_ref().and_then(|p| path.strip_prefix(p.as_str())).filter(|r| !r.contains('/'));
+                    let class = match (self.disk.immutable_number_of(path), in_imm) {
+                        (Some(_), _) => "numbered",
+                        (None, Some(name)) => match crate::reference::classify_name(name) {
+                            crate::reference::NameClass::Unparseable => "unparseable",
+                            _ => "other_in_immutable",
+                        },
+                        (None, None) if path.split('/').rev().skip(1).any(|c| c == "immutable") => "other_immutable_dir",
+                        (None, None) => "elsewhere",
                     };
                     self.out.hit(&format!("sim_extra_{class}"));
                     format!("extra:{class}")
@@ -692,6 +699,15 @@ impl World {
         self.out.hit("sim_computes");
         let relation = self.beacon_relation(beacon);
         let flags = self.layout_flags(beacon);
+        if self.disk.immutable_dir_candidates() > 1 {
+            self.out.hit("probe_several_immutable_dirs");
+            if self.disk.immutable_dir_tie() {
+                self.out.hit("probe_immutable_dir_tie_at_min_depth");
+            }
+            if self.disk.immutable_dir() != Some(self.trio_dir.as_str()) {
+                self.out.hit("probe_immutable_dir_is_not_the_trio_dir");
+            }
+        }
         if let Api::Range { lo } = api {
             return self.compute_range(lo, beacon, cache);
         }
